@@ -7,7 +7,7 @@ from harness.bench import drain
 
 PROPERTY = "C09"
 P = {}
-FUNCTIONS_ENCODED = ["Node.route_answer", "Node.send_message", "Node.remove_peer_connection", "Node.close_connection_socket", "Node.receive_dpr",
+FUNCTIONS_ENCODED = ["Application.send_answer (cooperative transform of the real source, two concurrent callers)", "Node.route_answer", "Node.send_message", "Node.remove_peer_connection", "Node.close_connection_socket", "Node.receive_dpr",
                      "Node._receive_app_request", "Application.send_answer / generate_answer", "Node.receive_cer (reconnect)"]
 ASSUMPTIONS = ["hop-by-hop ids are drawn from a 5-element pool (the node only compares them and uses them as keys: data-independence)",
                "requests arrive in a fixed order; answer order, duplicate submission, fault kind and fault point are solver-chosen"]
@@ -187,9 +187,70 @@ def repro_equal_hbh():
     return on1 == [7001], "answer to peer2's request 0x10001/7001 queued on peer1's connection: %r, on peer2's: %r" % (on1, on2)
 
 
+
+# ----------------------------------------------------------------------------- concurrent submissions for one request
+from engine import coop  # noqa: E402
+from diameter.node.application import Application as _App  # noqa: E402
+
+_REG = {}
+SEND_ANSWER, _SRC = coop.coop(_App.send_answer, registry=_REG)
+
+
+def answer_race(sched: List[int], other: bool) -> bool:
+    """
+    pre: len(sched) == P["slots"] and all(0 <= s < 12 for s in sched) and all(sched[i] < sched[i + 1] for i in range(len(sched) - 1))
+    post: _
+    """
+    hx.begin()
+    inputs = (sched, other)
+    # two threads of a plain Application (e.g. the handler and a time-out thread) submit an answer for the SAME request; the real
+    # Application.send_answer runs as a cooperative generator (preemption before each of its statements; route_answer and
+    # send_message themselves are atomic here), the solver places the preemptions
+    sc = [hx.concretize_range(x, 0, 12) for x in sched]
+    oth = bool(other)
+    try:
+        with hx.untraced():
+            b = B.Bench(n_peers=2, apps=((4, "auth"),))
+            n, app = b.node, b.apps[0]
+            c1, s1 = b.make_ready(b.peers[0], "10.0.1.1")
+            c2, s2 = b.make_ready(b.peers[1], "10.0.1.2")
+            b.inject(c1, B.ccr(B.PEER_HOSTS[0], 41, 42))
+            if oth:
+                b.inject(c2, B.ccr(B.PEER_HOSTS[1], 41, 43))       # a bystander request with the same hop-by-hop id
+            req = app.requests[0]
+            outcome = {}
+
+            def submit(i):
+                try:
+                    yield from SEND_ANSWER(app, app.generate_answer(req, result_code=2001 + i))
+                    outcome[i] = "sent"
+                except B.NotRoutable:
+                    outcome[i] = "NotRoutable"
+                except Exception as e:
+                    outcome[i] = type(e).__name__
+            used = [False] * len(sc)
+
+            def choose(step, nrunnable):
+                for i in range(len(sc)):
+                    if not used[i] and sc[i] == step:
+                        used[i] = True
+                        return 1
+                return 0
+            coop.run_choices([submit(0), submit(1)], choose, len(sc), max_steps=200)
+            on1 = [m.header.end_to_end_identifier for m in drain(c1) if not m.header.is_request]
+            on2 = [m.header.end_to_end_identifier for m in drain(c2) if not m.header.is_request]
+            obs = (len(on1), len(on2), sorted(outcome.values()).count("sent"))
+    except Exception as e:
+        return hx.fail(inputs, "raised %s: %s" % (type(e).__name__, str(e)[:80]))
+    return hx.check(inputs, obs, (1, 0, 1), "two concurrent submissions for one request: exactly one is transmitted (to the requester), the other fails")
+
+
 def specs(tier, seed, carve):
     out = []
     q = tier == "quick"
+    for slots in (1, 2):
+        out.append(dict(id="answer_race/p%d" % slots, fn="answer_race", params={"slots": slots}, timeout=600,
+                        bound="two concurrent Application.send_answer calls for one request (with / without a bystander request of equal hop-by-hop id on another connection), every placement of %d preemption(s) between the statements of send_answer" % slots))
     for fi_ in (0, 2):
         for pi in (0, 4):
             out.append(dict(id="scenario/second_conn/%s/perm%d" % (FAULTS[fi_], pi), fn="scenario", params={"fault": fi_, "perm": pi, "pool": 3, "second_conn": True}, timeout=900,
